@@ -1,5 +1,6 @@
 //! Small helpers: 128-bit state hash, crash reporter, panic capture, JSON string escaping.
 
+use std::sync::atomic::{AtomicU64, AtomicUsize, Ordering};
 use std::cell::{Cell, RefCell};
 
 /// 128-bit hash of a byte string (two independent 64-bit mixers).
@@ -51,7 +52,122 @@ thread_local! {
     static PANIC_LEN: Cell<usize> = const { Cell::new(0) };
 }
 
+// Hang watchdog: every thread that announces executions registers itself; a watchdog thread notices when no
+// execution has been announced anywhere for `HANG_SECS` and delivers SIGUSR1 to the registered thread that burnt the
+// most CPU time meanwhile (or, if none did, the one that announced last): its crash handler then prints that thread's
+// descriptor, exactly as for an abort, and the process exits.  A non-terminating operation thus becomes a replayable
+// violation instead of an engine that never returns.
+const MAX_WATCHED: usize = 64;
+static PROGRESS: AtomicU64 = AtomicU64::new(0);
+static NWATCHED: AtomicUsize = AtomicUsize::new(0);
+static WATCHED_TID: [AtomicU64; MAX_WATCHED] = [const { AtomicU64::new(0) }; MAX_WATCHED];
+static WATCHED_LAST: [AtomicU64; MAX_WATCHED] = [const { AtomicU64::new(0) }; MAX_WATCHED];
+pub static HANG_SECS: AtomicU64 = AtomicU64::new(90);
+struct WatchSlot(Cell<usize>);
+impl Drop for WatchSlot {
+    fn drop(&mut self) {
+        let i = self.0.get();
+        if i < MAX_WATCHED {
+            WATCHED_TID[i].store(0, Ordering::SeqCst);
+        }
+    }
+}
+thread_local! {
+    static WATCH_INDEX: WatchSlot = const { WatchSlot(Cell::new(usize::MAX)) };
+}
+
+fn thread_cpu_ns(tid: libc::pthread_t) -> u64 {
+    unsafe {
+        let mut cid: libc::clockid_t = 0;
+        if libc::pthread_getcpuclockid(tid, &mut cid) != 0 {
+            return 0;
+        }
+        let mut ts: libc::timespec = std::mem::zeroed();
+        if libc::clock_gettime(cid, &mut ts) != 0 {
+            return 0;
+        }
+        ts.tv_sec as u64 * 1_000_000_000 + ts.tv_nsec as u64
+    }
+}
+
+fn watchdog() {
+    let mut last = PROGRESS.load(Ordering::Relaxed);
+    let mut since = std::time::Instant::now();
+    let mut cpu0: Vec<u64> = Vec::new();
+    loop {
+        std::thread::sleep(std::time::Duration::from_millis(500));
+        let now = PROGRESS.load(Ordering::Relaxed);
+        let n = NWATCHED.load(Ordering::Relaxed).min(MAX_WATCHED);
+        if now != last || n == 0 {
+            last = now;
+            since = std::time::Instant::now();
+            cpu0 = (0..n).map(|i| match WATCHED_TID[i].load(Ordering::SeqCst) { 0 => 0, t => thread_cpu_ns(t as libc::pthread_t) }).collect();
+            continue;
+        }
+        if since.elapsed().as_secs() < HANG_SECS.load(Ordering::Relaxed) {
+            continue;
+        }
+        // nobody announced an execution for HANG_SECS: blame the busiest registered thread
+        let mut best = (0usize, 0u64);
+        let mut any = false;
+        for i in 0..n {
+            let t = WATCHED_TID[i].load(Ordering::SeqCst);
+            if t == 0 {
+                continue;
+            }
+            any = true;
+            let c = thread_cpu_ns(t as libc::pthread_t).saturating_sub(cpu0.get(i).copied().unwrap_or(0));
+            if c > best.1 {
+                best = (i, c);
+            }
+        }
+        if !any {
+            since = std::time::Instant::now();
+            continue;
+        }
+        if best.1 < 1_000_000_000 {
+            // no thread is computing (a wait that never ends): the thread that announced most recently
+            let mut latest = (0usize, 0u64);
+            for i in 0..n {
+                let t = WATCHED_LAST[i].load(Ordering::Relaxed);
+                if WATCHED_TID[i].load(Ordering::SeqCst) != 0 && t >= latest.1 {
+                    latest = (i, t);
+                }
+            }
+            best.0 = latest.0;
+        }
+        let victim = WATCHED_TID[best.0].load(Ordering::SeqCst);
+        if victim == 0 {
+            since = std::time::Instant::now();
+            continue;
+        }
+        unsafe {
+            libc::pthread_kill(victim as libc::pthread_t, libc::SIGUSR1);
+        }
+        std::thread::sleep(std::time::Duration::from_secs(5));
+        unsafe { libc::_exit(71) };
+    }
+}
+
 pub fn set_crash_descriptor(desc: &str) {
+    let seq = PROGRESS.fetch_add(1, Ordering::Relaxed) + 1;
+    let _ = WATCH_INDEX.try_with(|w| {
+        let w = &w.0;
+        if w.get() == usize::MAX {
+            w.set(usize::MAX - 1);
+            let me = unsafe { libc::pthread_self() } as u64;
+            for i in 0..MAX_WATCHED {
+                if WATCHED_TID[i].compare_exchange(0, me, Ordering::SeqCst, Ordering::SeqCst).is_ok() {
+                    w.set(i);
+                    NWATCHED.fetch_max(i + 1, Ordering::Relaxed);
+                    break;
+                }
+            }
+        }
+        if w.get() < MAX_WATCHED {
+            WATCHED_LAST[w.get()].store(seq, Ordering::Relaxed);
+        }
+    });
     let mut buf = [0u8; SLOT];
     let n = desc.len().min(SLOT);
     buf[..n].copy_from_slice(&desc.as_bytes()[..n]);
@@ -83,13 +199,22 @@ extern "C" fn on_fatal(sig: libc::c_int) {
 
 pub fn install_crash_handler() {
     unsafe {
-        for sig in [libc::SIGABRT, libc::SIGSEGV, libc::SIGBUS, libc::SIGILL, libc::SIGFPE] {
+        for sig in [libc::SIGABRT, libc::SIGSEGV, libc::SIGBUS, libc::SIGILL, libc::SIGFPE, libc::SIGUSR1] {
             let mut sa: libc::sigaction = std::mem::zeroed();
             sa.sa_sigaction = on_fatal as usize;
             sa.sa_flags = libc::SA_NODEFER;
             libc::sigaction(sig, &sa, std::ptr::null_mut());
         }
     }
+    static STARTED: std::sync::Once = std::sync::Once::new();
+    STARTED.call_once(|| {
+        if let Ok(v) = std::env::var("VERIF_HANG_SECS") {
+            if let Ok(n) = v.parse::<u64>() {
+                HANG_SECS.store(n, Ordering::Relaxed);
+            }
+        }
+        let _ = std::thread::Builder::new().name("hang-watchdog".into()).spawn(watchdog);
+    });
 }
 
 // ---------------------------------------------------------------------------------------------
